@@ -29,6 +29,7 @@ int main() {
     { auto r = s->wres(8); if (r.is_ok()) printf(" wres=1:%s", std::move(r).ok().value().c_str()); else printf(" wres=0:E%u", (unsigned)std::move(r).err().value()); }
     printf(" wplain=%s", s->wplain(7).c_str());
     { auto r = Store::wstatic((uint8_t)n, 4660); printf(" wstatic=%d:%s", (int)r.has_value(), r.has_value() ? r->c_str() : ""); }
+    { diplomat::span<const uint32_t> none; printf(" ounit=%d count=%u", (int)s->ounit().has_value(), s->count(none) + s->count({}) - s->count(none)); }
     printf("\n");
   }
   { Pt p{ -7, 2.5, 9 }; Pt q = p.shift(10, Lv::Mid); printf("pt sum=%.3f shift=%d,%.3f,%u\n", p.sum(), (int)q.x, q.y, (unsigned)q.z); }
